@@ -117,14 +117,14 @@ type gRule struct {
 }
 
 type agreeAn struct {
-	c      *Ctx
-	g      *gsyms
-	axioms []gAtom          // range facts of symbols, added when the symbol is created
-	rules  []gRule          // helper exit summaries instantiated so far
-	seenC  map[string]bool  // instantiated calls
-	cnts   map[string][]int // canonical slice -> count symbols of compactint.Reverse* calls on it
-	rsOf   map[string]int   // canonical slice -> count symbol of ReverseSize on it
-	noInline bool           // treat every module call as an uninterpreted function of its canonical arguments
+	c        *Ctx
+	g        *gsyms
+	axioms   []gAtom          // range facts of symbols, added when the symbol is created
+	rules    []gRule          // helper exit summaries instantiated so far
+	seenC    map[string]bool  // instantiated calls
+	cnts     map[string][]int // canonical slice -> count symbols of compactint.Reverse* calls on it
+	rsOf     map[string]int   // canonical slice -> count symbol of ReverseSize on it
+	noInline bool             // treat every module call as an uninterpreted function of its canonical arguments
 }
 
 type gEnv struct {
@@ -163,8 +163,8 @@ func (ev *gEnv) fieldTerm(base cT, f *types.Var, v ssa.Value) cT {
 	return ev.an.opaque(name)
 }
 
-func (an *agreeAn) axiom(l Lin)  { an.axioms = append(an.axioms, gAtom{kind: 'g', l: l}) }
-func kLin(k int64) Lin           { return linConst(k) }
+func (an *agreeAn) axiom(l Lin)           { an.axioms = append(an.axioms, gAtom{kind: 'g', l: l}) }
+func kLin(k int64) Lin                    { return linConst(k) }
 func (an *agreeAn) opaque(name string) cT { return cT{kind: 'o', s: name} }
 
 func (ev *gEnv) intSym(name string, t types.Type) cT {
@@ -439,9 +439,9 @@ func (ev *gEnv) callResult(call *ssa.Call, idx int) cT {
 			_, existed := an.g.ids[cname]
 			l := an.g.v(cname)
 			if !existed {
-				an.axiom(l.addK(1))                               // >= -1
-				an.axiom(kLin(9).sub(l))                           // <= 9
-				an.axiom(args[0].hi.sub(args[0].lo).sub(l))       // <= len(arg)
+				an.axiom(l.addK(1))                         // >= -1
+				an.axiom(kLin(9).sub(l))                    // <= 9
+				an.axiom(args[0].hi.sub(args[0].lo).sub(l)) // <= len(arg)
 				id := an.g.ids[cname]
 				key := argStrs[0]
 				if cidx == -1 {
